@@ -30,6 +30,14 @@ def unavailable(table_has, x):
     return z3.Or(x == 0, z3.Select(table_has, x))
 
 
+def _found_flag(ctx):
+    """The loop's "found" flag, if the loop is written with one (`while not found:`); None for the `while True: ... return` form."""
+    try:
+        return B(ctx.local('available_stream_id_found', ('while_names',)))
+    except Unsupported:
+        return None
+
+
 def alloc_loop_spec(E, Mx, cur0, has0):
     mod = Mx + 1
 
@@ -38,22 +46,24 @@ def alloc_loop_spec(E, Mx, cur0, has0):
         k = I(ctx.k)
         cur = I(s.attrs['_current_stream_id'])
         att = I(ctx.local('attempt_counter', ('aug', 1)))
-        found = B(ctx.local('available_stream_id_found', ('while_names',)))
+        found = _found_flag(ctx)
         i = z3.Int('inv.i')
-        tried = z3.ForAll([i], z3.Implies(z3.And(i >= 1, i <= k - z3.If(found, 1, 0)),
-                                          unavailable(has0, (I(cur0) + 2 * i) % mod)))
-        return [
+        upto = k - z3.If(found, 1, 0) if found is not None else k
+        tried = z3.ForAll([i], z3.Implies(z3.And(i >= 1, i <= upto), unavailable(has0, (I(cur0) + 2 * i) % mod)))
+        out = [
             ('cur=cur0+2k mod M+1', cur == (I(cur0) + 2 * k) % mod),
             ('counter=k', att == k),
-            ('found<=>k>=1 and cur available', found == z3.And(k >= 1, z3.Not(unavailable(has0, cur)))),
             ('k bounded', z3.And(k >= 0, 2 * k <= Mx + 1)),
             ('all earlier candidates unavailable', tried),
-            ('table unchanged', s.attrs['_streams'].has.eq(has0) if True else True),
+            ('table unchanged', s.attrs['_streams'].has.eq(has0)),
         ]
+        if found is not None:
+            out.insert(2, ('found<=>k>=1 and cur available', found == z3.And(k >= 1, z3.Not(unavailable(has0, cur)))))
+        return out
 
     def variant(ctx):
-        found = B(ctx.local('available_stream_id_found', ('while_names',)))
-        return Mx + 3 - 2 * I(ctx.k) - z3.If(found, 1, 0)
+        found = _found_flag(ctx)
+        return Mx + 3 - 2 * I(ctx.k) - (z3.If(found, 1, 0) if found is not None else 0)
     return LoopSpec(inv, variant)
 
 
@@ -65,6 +75,10 @@ def _alloc(Mx):
         E.loop_specs[(ALLOC, 0)] = alloc_loop_spec(E, Mx, cur0, has0)
         f = E.lookup(ALLOC)
         mod = Mx + 1
+        i = z3.Int('inv.i')
+
+        def tried_upto(n):
+            return z3.ForAll([i], z3.Implies(z3.And(i >= 1, i <= n), unavailable(has0, (I(cur0) + 2 * i) % mod)))
         try:
             r = E.call(f, [sc])
         except PyExc as e:
@@ -78,11 +92,8 @@ def _alloc(Mx):
             E.assume(I(x) % 2 == p)
             j = ((I(x) - I(cur0)) % mod) / 2
             w = z3.If(j == 0, mod / 2, j)
-            i = z3.Int('inv.i')
-            found = B(ctx.local('available_stream_id_found', ('while_names',)))
-            tried = z3.ForAll([i], z3.Implies(z3.And(i >= 1, i <= k - z3.If(found, 1, 0)),
-                                              unavailable(has0, (I(cur0) + 2 * i) % mod)))
-            E.path.add(instantiate_forall(tried, w))       # consequence of the (assumed) loop invariant
+            found = _found_flag(ctx)
+            E.path.add(instantiate_forall(tried_upto(k - z3.If(found, 1, 0) if found is not None else k), w))   # consequence of the (assumed) loop invariant
             E.prove('fails_only_if_full', z3.Select(has0, I(x)))
             E.prove('raise:table_unchanged', sc.attrs['_streams'].has.eq(has0))
             return
@@ -96,11 +107,12 @@ def _alloc(Mx):
         E.prove('post:not_active', z3.Not(z3.Select(has0, rr)))
         E.prove('post:current_is_result', I(sc.attrs['_current_stream_id']) == rr)
         E.prove('post:table_unchanged', sc.attrs['_streams'].has.eq(has0))
-        # advance by 2, wrap, skip ids in use: r is the FIRST available id in cyclic +2 order after cur0
-        i = z3.Int('inv.i')
-        E.prove('post:first_free_in_cyclic_order',
-                z3.And(k >= 1, rr == (I(cur0) + 2 * k) % mod,
-                       z3.ForAll([i], z3.Implies(z3.And(i >= 1, i < k), unavailable(has0, (I(cur0) + 2 * i) % mod)))))
+        # advance by 2, wrap, skip ids in use: r is the FIRST available id in cyclic +2 order after cur0.  The number of steps
+        # is the loop counter at the point of return: k when the loop is left through its test, k+1 when it returns from inside
+        def first_after(j):
+            return z3.And(j >= 1, rr == (I(cur0) + 2 * j) % mod,
+                          z3.ForAll([i], z3.Implies(z3.And(i >= 1, i < j), unavailable(has0, (I(cur0) + 2 * i) % mod))))
+        E.prove('post:first_free_in_cyclic_order', z3.Or(first_after(k), first_after(k + 1)))
         E.prove('inv13_preserved', z3.And(rr >= 0, rr <= Mx, rr % 2 == p))
     return run
 
